@@ -310,7 +310,7 @@ fn random_case(r: &mut Rng, id: String, dirty: bool) -> Case {
             2 | 3 | 4 => if intx[cu] { ops.push(cmd_op(c, &[if r.chance(1, 8) { b"DISCARD" } else { b"EXEC" }])); intx[cu] = false; },
             // watched keys: written by the string, list/set/hash and stream families only (Server.v has no
             // marks for sorted sets and scripts yet: C08's catalogue)
-            5 => if !intx[cu] && r.chance(1, 2) { ops.push(cmd_op(c, &[b"WATCH", *r.pick(&[&b"kb"[..], b"k3", b"s2", b"x2"])])); },
+            5 => if !intx[cu] && r.chance(1, 2) { ops.push(cmd_op(c, &[b"WATCH", *r.pick(&[&b"kb"[..], b"k3", b"s2"])])); },
             6 => if r.chance(1, 2) {
                 let n = *r.pick(&[&b"0"[..], b"0", b"1", b"1", b"2", b"15", b"16"]);
                 ops.push(cmd_op(c, &[b"SELECT", n]));
@@ -327,7 +327,18 @@ fn random_case(r: &mut Rng, id: String, dirty: bool) -> Case {
                         let mut fr: Vec<V> = cmd.iter().map(|a| V::Bulk(a.clone())).collect();
                         fr[pos] = if r.chance(1, 2) { V::Int(5) } else { V::NullBulk };
                         ops.push(cmd_frame_op(c, &V::Array(fr)));
-                    } else { push(&mut ops, c, &cmd); }
+                    } else {
+                        // d9160ac (XREADGROUP on a key that does not exist answers NOGROUP) is not yet in the
+                        // stream model on main: the key is made to exist first (as a stream, unless it holds
+                        // another type), with or without the group
+                        if upper(&cmd[0]) == b"XREADGROUP" && cmd.len() >= 4 {
+                            let key = cmd[cmd.len() - 2].clone();
+                            if r.chance(1, 2) { push(&mut ops, c, &[v(b"XGROUP"), v(b"CREATE"), key, cmd[2].clone(), v(b"$"), v(b"MKSTREAM")]); }
+                            else { st.next_ms += 1; let id = format!("{}-0", st.next_ms).into_bytes(); st.added.push((key.clone(), id.clone()));
+                                   push(&mut ops, c, &[v(b"XADD"), key, id, v(b"f"), v(b"v")]); }
+                        }
+                        push(&mut ops, c, &cmd);
+                    }
                 }
             }
         }
